@@ -660,9 +660,10 @@ def p2_configs (cfg):
   # while full, a peer thread drains them; the last message is sent after the deferred sender went idle
   def addb (bl, plan, waits, b, s): add(2, plan, None, b, s, calls=6, backlog=BACKLOGS[bl], waits=waits)
   if cfg.quick:
-    addb(1, ABA, [2], 2, 0); addb(0, ABA, [2], 2, 0)
-    addb(0, ABA, [2], 1, 1); addb(0, ABBA, [3], 1, 1); addb(0, ABA, [], 1, 1)
-    addb(0, ABBA, [3], 1, 0); addb(1, ABBA, [3], 1, 0)
+    addb(0, ABA, [2], 2, 0); addb(0, ABA, [2], 1, 1)
+    for bl in range(len(BACKLOGS)):
+      for plan, waits in ((ABA, [2]), (ABBA, [3]), (ABA, [])):
+        if (bl, plan, waits) != (0, ABA, [2]): addb(bl, plan, waits, 1, 0)
   else:
     addb(0, ABA, [2], 2, 1); addb(1, ABA, [2], 2, 1)
     for bl in range(len(BACKLOGS)):
